@@ -8,6 +8,12 @@ import (
 	"github.com/enbility/spine-go/model"
 )
 
+// The use cases of all entities of a device are stored in one data set of the
+// NodeManagement feature and every change is a read-modify-write cycle on it.
+// The cycles have to be serialised, otherwise concurrent changes (also on
+// different entities) overwrite each other.
+var useCaseMux sync.Mutex
+
 type EntityLocal struct {
 	*Entity
 	device   api.DeviceLocalInterface
@@ -135,6 +141,9 @@ func (r *EntityLocal) AddUseCaseSupport(
 	useCaseAvailable bool,
 	scenarios []model.UseCaseScenarioSupportType,
 ) {
+	useCaseMux.Lock()
+	defer useCaseMux.Unlock()
+
 	nodeMgmt := r.device.NodeManagement()
 
 	data, err := LocalFeatureDataCopyOfType[*model.NodeManagementUseCaseDataType](nodeMgmt, model.FunctionTypeNodeManagementUseCaseData)
@@ -175,6 +184,9 @@ func (r *EntityLocal) SetUseCaseAvailability(
 	actor model.UseCaseActorType,
 	useCaseName model.UseCaseNameType,
 	available bool) {
+	useCaseMux.Lock()
+	defer useCaseMux.Unlock()
+
 	nodeMgmt := r.device.NodeManagement()
 
 	data, err := LocalFeatureDataCopyOfType[*model.NodeManagementUseCaseDataType](nodeMgmt, model.FunctionTypeNodeManagementUseCaseData)
@@ -197,6 +209,9 @@ func (r *EntityLocal) RemoveUseCaseSupport(
 	actor model.UseCaseActorType,
 	useCaseName model.UseCaseNameType,
 ) {
+	useCaseMux.Lock()
+	defer useCaseMux.Unlock()
+
 	nodeMgmt := r.device.NodeManagement()
 
 	data, err := LocalFeatureDataCopyOfType[*model.NodeManagementUseCaseDataType](nodeMgmt, model.FunctionTypeNodeManagementUseCaseData)
@@ -216,6 +231,9 @@ func (r *EntityLocal) RemoveUseCaseSupport(
 
 // Remove all usecases
 func (r *EntityLocal) RemoveAllUseCaseSupports() {
+	useCaseMux.Lock()
+	defer useCaseMux.Unlock()
+
 	nodeMgmt := r.device.NodeManagement()
 
 	data, err := LocalFeatureDataCopyOfType[*model.NodeManagementUseCaseDataType](nodeMgmt, model.FunctionTypeNodeManagementUseCaseData)
